@@ -46,7 +46,9 @@ DTypes == << I32b, TInt("Int32", Unset, Unset), TInt("UInt64", Unset, Unset), TI
              TTs("f1"), TNull(I32b), TNull(TRef("K")), TList(I32b, Unset, Unset), TRef("L"), TBytes(Unset, Unset),
              TMap(I32b),
              \* floats bounded on one side only
-             TFloat("Float64", Unset, 11), TFloat("Float64", 5, Unset) >>
+             TFloat("Float64", Unset, 11), TFloat("Float64", 5, Unset),
+             \* String(pattern=""): what an empty pattern means is not documented
+             TStr(Unset, Unset, "p0") >>
 Lits == {LInt(r) : r \in {3, 4, 6, 7, 8, 9, 10, 12, 13, 15, 16, 24, 25}} \cup
         {LFloat(r) : r \in {0, 1, 4, 5, 9, 11, 12, 16, 17}} \cup
         {LStr(n, f, p) : n \in {0, 1, 2, 3, 4}, f \in BOOLEAN, p \in BOOLEAN} \cup
@@ -66,7 +68,8 @@ CompileLit(sc, t, l) ==
                                 THEN (IF FLo(u) <= IntToFloat(l.r) /\ IntToFloat(l.r) <= FHi(u) THEN "acc" ELSE "rej")
                                 ELSE "unspec")
                           ELSE "rej"
-      [] u.k = "str"   -> IF l.k = "lstr" /\ LenOk(u, l.len) /\ (u.pat = "" \/ l.full) THEN "acc"
+      [] u.k = "str"   -> IF u.pat = "p0" THEN (IF l.k \in {"lstr", "lts"} THEN "unspec" ELSE "rej")
+                          ELSE IF l.k = "lstr" /\ LenOk(u, l.len) /\ (u.pat = "" \/ l.full) THEN "acc"
                           ELSE IF l.k = "lts" THEN "unspec"           \* some other text: not classified
                           ELSE "rej"
       [] u.k = "bool"  -> IF l.k = "lbool" THEN "acc" ELSE "rej"
